@@ -38,6 +38,8 @@ type c15World struct {
 	refused int
 	faults  int
 	deleted map[string]bool // channels deleted inside the batch being checked
+	// adoptedInBatch: the recorded finding C15-K1 was passed inside the batch being checked
+	adoptedInBatch bool
 }
 
 func runC15(t *testing.T, r *simkit.Run) {
@@ -267,6 +269,24 @@ func (w *c15World) model(c rtCmd) c15Expect {
 	return e
 }
 
+// adoptLexicographic is taken after the recorded finding C15-K1 was observed in a
+// run that goes on (simkit.Run.FailSigContinue): the literal reference row is
+// replaced by the row the store holds (the lexicographic reference, which has
+// followed the store all along), and the rest of the history is judged like a
+// run of the lexicographic half.
+func (w *c15World) adoptLexicographic() {
+	w.literal = false
+	w.adoptedInBatch = true // which writes of this batch were "refused" was judged literally: that clause rests until the next batch
+	w.ref = map[string]*rtMeta{}
+	for id, m := range w.lex {
+		if m != nil {
+			c := *m
+			w.ref[id] = &c
+		}
+	}
+	w.r.Probe("known_c15k1_passed_reference_adopts_stored_row")
+}
+
 func (w *c15World) commit(maxBatch, dupBias int) {
 	r, tp := w.r, w.tp
 	m := 1 + tp.Intn(min(maxBatch, len(w.pending)))
@@ -291,6 +311,7 @@ func (w *c15World) commit(maxBatch, dupBias int) {
 	}
 	preSnaps := w.snapAll()
 	w.deleted = map[string]bool{}
+	w.adoptedInBatch = false
 
 	cmds := make([]multiraft.Command, len(batch))
 	for i, c := range batch {
@@ -357,8 +378,25 @@ func (w *c15World) commit(maxBatch, dupBias int) {
 		case rtkUpsert, rtkRetention:
 			wantStale := exp.outcome == rtConflict
 			if wantStale != (res == fsm.ApplyResultStaleMeta) && (exp.lexOut == rtConflict) == (res == fsm.ApplyResultStaleMeta) && !rtEqual(w.ref[c.ch.id], w.lex[c.ch.id]) {
-				r.FailSig("leader-epoch-decreased", "channel-epoch-raised", fmt.Sprintf("%s: result %q follows a row in which an earlier write of this batch raised the channel epoch while lowering the leader epoch (literal reference row %s, lexicographic row %s)", c.desc, res, rtString(w.ref[c.ch.id]), rtString(w.lex[c.ch.id])), nil)
-				return
+				if r.FailSigContinue("leader-epoch-decreased", "channel-epoch-raised", fmt.Sprintf("%s: result %q follows a row in which an earlier write of this batch raised the channel epoch while lowering the leader epoch (literal reference row %s, lexicographic row %s)", c.desc, res, rtString(w.ref[c.ch.id]), rtString(w.lex[c.ch.id])), nil) {
+					return
+				}
+				// recorded finding, the run goes on: the reference adopts the store's
+				// (lexicographic) ordering of the two epochs from here; every other clause,
+				// including "leader epoch never decreases inside one channel epoch",
+				// restarts from the adopted rows
+				w.adoptLexicographic()
+				acceptedAny[c.ch.id] = true // this batch's "refused writes leave the bytes alone" check no longer applies to the row
+				switch res {
+				case fsm.ApplyResultStaleMeta:
+					w.refused++
+				case fsm.ApplyResultOK:
+					w.applied++
+				default:
+					r.FailSig("result-mismatch", fmt.Sprintf("%d/%s", c.kind, exp.lexOut), fmt.Sprintf("%s: result %q", c.desc, res), nil)
+					return
+				}
+				continue
 			}
 			if wantStale != (res == fsm.ApplyResultStaleMeta) {
 				r.FailSig("result-mismatch", fmt.Sprintf("%d/%s", c.kind, exp.outcome), fmt.Sprintf("%s: result %q, reference outcome %s", c.desc, res, exp.outcome), nil)
@@ -413,13 +451,24 @@ func (w *c15World) commit(maxBatch, dupBias int) {
 						sig = "channel-epoch-raised"
 					}
 				}
-				r.FailSig(class, sig, fmt.Sprintf("channel %s across index %d..%d: %s; before %s after %s", ch.id, cmds[0].Index, w.index, detail, rtString(pre[ch.id]), rtString(post)), nil)
-				return
+				msg := fmt.Sprintf("channel %s across index %d..%d: %s; before %s after %s", ch.id, cmds[0].Index, w.index, detail, rtString(pre[ch.id]), rtString(post))
+				if sig != "channel-epoch-raised" {
+					r.FailSig(class, sig, msg, nil)
+					return
+				}
+				if r.FailSigContinue(class, sig, msg, nil) {
+					return
+				}
+				w.adoptLexicographic()
+				acceptedAny[ch.id] = true // the literal reference had called that write refused
 			}
 		}
 		if !rtEqual(post, w.ref[ch.id]) && rtEqual(post, w.lex[ch.id]) {
-			r.FailSig("leader-epoch-decreased", "channel-epoch-raised", fmt.Sprintf("channel %s inside index %d..%d: a write that raised the channel epoch was applied although it carried an older leader epoch; stored %s, literal reference %s (before the batch: %s)", ch.id, cmds[0].Index, w.index, rtString(post), rtString(w.ref[ch.id]), rtString(pre[ch.id])), nil)
-			return
+			if r.FailSigContinue("leader-epoch-decreased", "channel-epoch-raised", fmt.Sprintf("channel %s inside index %d..%d: a write that raised the channel epoch was applied although it carried an older leader epoch; stored %s, literal reference %s (before the batch: %s)", ch.id, cmds[0].Index, w.index, rtString(post), rtString(w.ref[ch.id]), rtString(pre[ch.id])), nil) {
+				return
+			}
+			w.adoptLexicographic()
+			acceptedAny[ch.id] = true
 		}
 		if !rtEqual(post, w.ref[ch.id]) {
 			r.FailSig("row-differs-from-reference", "", fmt.Sprintf("channel %s after index %d: stored %s, reference %s (before the batch: %s)", ch.id, w.index, rtString(post), rtString(w.ref[ch.id]), rtString(pre[ch.id])), nil)
@@ -428,7 +477,7 @@ func (w *c15World) commit(maxBatch, dupBias int) {
 		if w.deleted[ch.id] && post != nil {
 			r.Probe("recreated_after_delete")
 		}
-		if refusedOnly[ch.id] && !acceptedAny[ch.id] {
+		if refusedOnly[ch.id] && !acceptedAny[ch.id] && !w.adoptedInBatch {
 			if !bytes.Equal(channelBytes(preSnaps, ch.id), channelBytes(postSnaps, ch.id)) {
 				r.FailSig("refused-write-changed-row", "", fmt.Sprintf("channel %s received only refused/no-op writes in index %d..%d but its stored bytes changed", ch.id, cmds[0].Index, w.index), nil)
 				return
